@@ -188,6 +188,7 @@ CLAIMED["C18"]["text"] += (" Flow<SendBody>::calculate_max_input (the function t
 CLAIMED["C11"]["text"] += (" Chained with the translated parser of src/parser.rs (zero header slots): from httparse's outcome to the flow's fields the translated code is the model's try_read_100 (c11_code_try_read_100_chain).")
 CLAIMED["C05"]["text"] += (" Chained: httparse's outcome -> the two translated parsers -> the translated Call::try_response equals the model's call_try_response (c05_code_call_try_response_chain).")
 CLAIMED["C05"]["text"] += (" What a FAILED Call::try_response leaves behind is translated too (error-state mode): the reader as it was (c05_code_failed_try_response_changes_nothing).")
+CLAIMED["C10"]["text"] += (" What a FAILED Flow::try_response leaves behind is translated too (error-state mode): reasons, await flag, status and location as they were (c10_code_failed_try_response_changes_nothing).")
 for _p in ("C02", "C03", "C04", "C06", "C07", "C08", "C09", "C10", "C11", "C12", "C13", "C16", "C17"):
     CLAIMED[_p]["technique"] += " + the code's own functions translated to Gallina on every run and proved equivalent to the model"
 
